@@ -723,7 +723,26 @@ def rule_j(F):
     res = []
     for f in compiler_fns(F):
         res.extend(jump_fn(F, f))
+    res.extend(callback_always_invoked(F))
     return res
+
+
+def callback_always_invoked(F):
+    """encode_if_then(skip, then): `then` is invoked on every path to the Ok return (placeholders written inside the
+    callbacks handed to it are therefore written whenever the code after the encode_if_then call runs)."""
+    f = F.fn("compiler::Compiler::encode_if_then")
+    cfg = f.cfg
+    calls = [bi for bi, t in mu.calls(f) if any(n.endswith("FnOnce::call_once") for n in callee_names(t["func"]))]
+    key = "C10/J/encode_if_then/callback-always-invoked"
+    if not calls:
+        return [bad("C10.J", key, f.loc(), "encode_if_then never invokes its `then` callback")]
+    err = mu.error_exit_blocks(f)
+    rets = [bi for bi, b in enumerate(f.blocks) if b["term"]["k"] == "return"]
+    okp = cfg.every_path_passes(0, rets, calls, avoid=err)
+    if okp:
+        return [ok("C10.J", key, f.loc(), "the callback is called on every path to the Ok return of encode_if_then")]
+    return [bad("C10.J", key, f.loc(), "encode_if_then can return Ok without having invoked its `then` callback: placeholders written "
+                "by callbacks are not written on that path, but are patched")]
 
 
 def arm_labels(f):
@@ -843,6 +862,10 @@ def jump_fn(F, f):
         # must-execute: the patch must not be nested in a conditional that does not also contain the placeholder
         if not hu.patch_unconditional_after(f, op, p):
             probs.append("patch is not executed on every non-error path after the placeholder")
+        extra = hu.placeholder_on_every_path_to_patch(f, op, p)
+        if extra:
+            probs.append("the placeholder is only written under a condition (%s) the patch is not under: when it is skipped the patch "
+                         "overwrites 4 bytes at a stale index (the initial value of the index variable)" % ", ".join(extra))
         if probs:
             res.append(bad("C10.J", key + "/patched", f.loc(p["ln"]), "; ".join(probs)))
         else:
@@ -962,6 +985,7 @@ def rule_s(F):
             if "bytecode::write_to_vec" in names:
                 uses = hir_local_id(x["args"][0]) == handle_id and handle_id is not None
                 order.append(("write_handle" if uses else "write_other", x["ln"]))
+    order.sort(key=lambda kv: kv[1] or 0)  # statement order (the walk visits a block's lets before its calls)
     kinds = [k for k, _ in order]
     if "len" in kinds and "encode" in kinds and kinds.index("len") < kinds.index("encode") and "write_handle" in kinds:
         res.append(ok("C10.S", "C10/S/push_str/handle-is-offset-before-append", ps.loc(),
